@@ -33,12 +33,14 @@ type Op struct {
 type Scenario struct {
 	ID      int64  `json:"id"`
 	Kind    string `json:"kind"`   // "conf" (conformance log) or "race" (run under the race detector)
-	Source  string `json:"source"` // triangle | simpulse | abaco
+	Source  string `json:"source"` // triangle | simpulse | abaco | lancero (simulated card, race prong only)
 	Nchan   int    `json:"nchan"`  // channels (abaco: channels per group)
 	Groups  int    `json:"groups,omitempty"`
 	ExtTrig bool   `json:"exttrig,omitempty"` // abaco: external-trigger packets in the stream
 	Slow    bool   `json:"slow,omitempty"`    // abaco: 5 frames per second, so that one block spans several trigger-rate periods
 	Pulse   int    `json:"pulse,omitempty"`   // simpulse: samples per pulse (default 400; 2000 with records of 400 for edge-multi triggering)
+	Unwrap  bool   `json:"unwrap,omitempty"`  // abaco: rescale the raw data and unwrap the phase (per-channel goroutines in demuxData)
+	GoPub   bool   `json:"gopub,omitempty"`   // the process itself consumes the record channels and reads every sample (race prong)
 	Seed    uint64 `json:"seed"`              // perturbation seed (race runs)
 	Ops     []Op   `json:"ops"`
 }
@@ -314,8 +316,13 @@ func (r *runner) start(repo string, ticks int) error {
 		if err != nil {
 			return err
 		}
-		r.done, r.release, err = r.ctl.VerifC17AbacoScript(prods)
+		r.done, r.release, err = r.ctl.VerifC17AbacoScript(prods, r.s.Unwrap)
 		if err != nil {
+			return err
+		}
+	case "lancero":
+		r.srcName = "LANCEROSOURCE"
+		if err := r.ctl.VerifC17LanceroNoHardware(2, 4, 1000); err != nil {
 			return err
 		}
 	default:
@@ -522,6 +529,26 @@ func (r *runner) op(o Op) bool {
 		fts.EdgeMultiLevel = level
 		fts.EdgeMultiVerifyNMonotone = 1
 		return r.call(o.Op, func() error { return sc.ConfigureTriggers(&fts, &ok) })
+	case "mix":
+		// N ConfigureMixFraction requests for two feedback channels (Lancero only), spread over a few block
+		// periods by plain sleeps: these requests go to the source directly, and nothing in between makes
+		// the client wait for the core loop (that would order the client after the blocks assembled so far)
+		if r.s.Source != "lancero" {
+			return true
+		}
+		n := o.N
+		if n <= 0 {
+			n = 1
+		}
+		for k := 0; k < n; k++ {
+			f := []float64{0.5, 0.25, 1.0, 0.0}[k%4]
+			mfo := dastard.MixFractionObject{ChannelIndices: []int{1, 3}, MixFractions: []float64{f, f}}
+			if !r.call(o.Op, func() error { return sc.ConfigureMixFraction(&mfo, &ok) }) {
+				return false
+			}
+			time.Sleep(35 * time.Millisecond)
+		}
+		return true
 	case "biglen":
 		// records of 2016 bytes (use with simpulse, pulse 2000: four auto-triggered records per block): a data
 		// file's 64 kB buffer then overflows after 8 blocks, between two of the flushes that the core loop
@@ -571,6 +598,9 @@ func Run(s Scenario, h Hooks, dir string, repo string) Outcome {
 	os.Setenv("HOME", dir)
 	os.MkdirAll(filepath.Join(dir, ".dastard"), 0o755)
 	os.MkdirAll(filepath.Join(dir, "data"), 0o755)
+	if s.GoPub {
+		dastard.VerifC17GoPublishers() // only has an effect before the first control of the process
+	}
 	ctl, err := dastard.VerifC17NewControl(npre, nsamp)
 	if err != nil {
 		r.fail("control: %v", err)
